@@ -20,6 +20,7 @@ import (
 	"fmt"
 	"github.com/echovault/sugardb/internal"
 	"github.com/echovault/sugardb/internal/config"
+	"github.com/echovault/sugardb/internal/verif"
 	"log"
 	"sync"
 	"time"
@@ -139,6 +140,7 @@ func (m *MemberList) broadcastRaftAddress() {
 // The ForwardDeleteKey function is only called by non-leaders.
 // It uses the broadcast queue to forward a key eviction command within the cluster.
 func (m *MemberList) ForwardDeleteKey(ctx context.Context, key string) {
+	verif.Point("gossip.forward", m.options.Config.ServerID, "DeleteKey", key)
 	connId, _ := ctx.Value(internal.ContextConnID("ConnectionID")).(string)
 	database, _ := ctx.Value("Database").(int)
 	protocol, _ := ctx.Value("Protocol").(int)
@@ -160,6 +162,7 @@ func (m *MemberList) ForwardDeleteKey(ctx context.Context, key string) {
 // The ForwardDataMutation function is only called by non-leaders.
 // It uses the broadcast queue to forward a data mutation within the cluster.
 func (m *MemberList) ForwardDataMutation(ctx context.Context, cmd []byte) {
+	verif.Point("gossip.forward", m.options.Config.ServerID, "MutateData", cmd)
 	connId, _ := ctx.Value(internal.ContextConnID("ConnectionID")).(string)
 	database, _ := ctx.Value("Database").(int)
 	protocol, _ := ctx.Value("Protocol").(int)
